@@ -391,9 +391,9 @@ fn host_object_deep_copy(cx: &mut Ctx) {
         });
         match shared {
             Ok(Some(false)) => {}
-            Ok(Some(true)) => cx.d_or_known(
+            // regression check for F-C14-4 (fixed by d0adf2c): a VIOLATION if it returns
+            Ok(Some(true)) => cx.d_violation(
                 "deep_copy_disjoint(host object)",
-                Some("F-C14-4"),
                 json!({"kind": "host_object", "nested_in_list": nested_in_list,
                        "note": "the list owned by a host object that implements KotoCopy::deep_copy is shared between the value and its deep copy"}),
             ),
